@@ -3,6 +3,7 @@ CONSTANTS
   Keys = {"a", "b"}
   Vals = {"1", "2"}
   MaxOps = 3
+  InitRecomputes = FALSE
   FinalInRoot = TRUE
-INVARIANTS EqualHistoriesEqualRoots
+INVARIANTS EqualHistoriesEqualRoots InitIdempotent
 CHECK_DEADLOCK FALSE
